@@ -1,6 +1,6 @@
 # C10 — radix tree: lock-free readers never see partial state or lose present keys
 # Decided by a REDUCTION checked on sequential executions of the writer, instrumented at every atomic store (see harness/c10_radix.c
-# and DESIGN.md A.3 C10): thread interleavings themselves are not explored.
+# and DESIGN.md A.4 C10): thread interleavings themselves are not explored.
 import os, sys
 sys.path.insert(0, os.path.join(os.path.dirname(__file__), '..', 'engine'))
 from run import Q, Unit
@@ -45,7 +45,7 @@ VALIDATE_VECTORS = 200
 LEVEL = 'model_checking'
 LEVEL_TEXT = ('bounded symbolic checking of a REDUCTION: the writer runs sequentially and, at every atomic store, the solver checks (P1) publication stores are release and only they touch reachable nodes, '
               '(P2) the real find() sees a consistent state (every previously present key found, no unconstructed value reachable), (P3) find() loads are acquire. Monotonic growth of the reader-visible graph '
-              'lifts this to interleaved readers (argument in DESIGN.md A.3); thread interleavings themselves are not explored.')
+              'lifts this to interleaved readers (argument in DESIGN.md A.4); thread interleavings themselves are not explored.')
 TECHNIQUE = 'CBMC bounded model checking of the clang-lowered writer and reader code on sequential executions instrumented at every atomic store (publication-order and reader-view obligations, memory orders taken from the IR)'
 FUNCTION_PATTERNS = [r'frg::rcu_radixtree', r'^rx_']
 ASSUMPTIONS = ['single writer (documented); readers only call find()', 'values are one byte and non-zero so that "constructed" is observable; fresh node memory is zero',
